@@ -13,11 +13,12 @@ import json, os, re
 import vlib
 
 COQ_TARGET = "props/C11.v"
-THEOREMS = ["C11_exec_vs_sem", "C11_machine_is_fold", "C11_fuel_mono", "C11_if_one_branch", "C11_if_one_branch_tokens",
+THEOREMS = ["C11_exec_vs_sem", "C11_run_script", "C11_machine_is_fold", "C11_fuel_mono", "C11_if_one_branch", "C11_if_one_branch_tokens",
             "C11_loop_unroll", "C11_loop_unroll_text", "C11_for_unroll", "C11_break_exits_loop", "C11_break_innermost",
             "C11_continue", "C11_continue_for", "C11_limit", "C11_limit_for", "C11_call_named", "C11_call_named_tokens",
-            "C11_statement_call", "C11_defaults", "C11_return_immediate", "C11_return_from_loops", "C11_return_keeps_result",
-            "C11_scope", "C11_scope_statement_call", "C11_local_writes_only", "C11_signals_stop_at_call"]
+            "C11_statement_call", "C11_statement_call_tokens", "C11_signals_stop_at_call", "C11_defaults", "C11_return_immediate",
+            "C11_return_from_loops", "C11_return_keeps_result", "C11_scope", "C11_scope_statement_call", "C11_local_writes_only",
+            "C11_args_in_caller_scope", "C11_call_in_caller_scope", "C11_statement_call_in_caller_scope"]
 DRIVERS = ["script", "core"]
 RULE = ("programs of 2..7 statements over: leaf commands (notes c d e f g a b with lengths, rests, o/l/v/q state commands), PRINT of 1..3 "
         "integer expressions, INT declarations with and without initialiser, assignments, X++ / X--, IF with and without ELSE (conditions = "
@@ -26,14 +27,16 @@ RULE = ("programs of 2..7 statements over: leaf commands (notes c d e f g a b wi
         "0..3 parameters (some with declared defaults) defined before or after their use, called as statements and inside expressions "
         "(initialisers, PRINT arguments, conditions, arguments of other calls) with omitted trailing and empty arguments, RETURN(value) from "
         "inside nested loops, RETURN without a value, Result = value, locals and parameters that shadow globals, assignment to a global name "
-        "inside a function; fixed families: recursion (factorial, Fibonacci, a countdown that plays notes) of depth <= 8, loops that never end "
+        "inside a function, functions whose parameters carry the NAMES of the caller's variables, called with those variables swapped / shifted / "
+        "used twice / inside nested calls F(G(B),A) as statements and inside expressions; fixed families: recursion (factorial, Fibonacci, a countdown that plays notes) of depth <= 8, loops that never end "
         "(WHILE(1) and FOR(;1;) with X++ / CONTINUE / guarded RETURN bodies) cut at 10000; layout: blanks / line breaks / ';' between "
-        "statements, line breaks inside blocks, ELSE on the same or the next line.  non-trivial = distinct source whose expansion has >= 2 "
+        "statements, line breaks inside blocks, ELSE on the same or the next line; plus a damaged stream for the correspondence only "
+        "(loop-free programs with one character deleted / doubled / inserted or a span removed).  non-trivial = distinct source whose expansion has >= 2 "
         "leaves or prints and that contains a loop or a call")
 TRUSTED = ["log line formats `[PRINT](line) text` and `[ERROR](line) Loop too many times WHILE(>10000)` of runner.rs",
            "the integer semantics re-implemented in this plugin (truncating / and %, division by zero = 0, comparisons = 1 / 0)",
            "Flags::new() max_loop = 10000 (anchored: the plugin reads src/song.rs and stops the run if the constant moved)"]
-ASSUMES = ["every value stays below 2^40 in magnitude (64-bit overflow is not modelled)",
+ASSUMES = ["every value stays below 2^31 - 1 in magnitude (the expansion writes values as numerals, which get_int saturates at i32::MAX; 64-bit overflow is not modelled)",
            "variables are declared or assigned before they are read; names do not collide with commands (Xa, Ia, Fa, Pa, ...)",
            "function bodies read only their own parameters / locals and globals that no caller shadows (the code looks names up through "
            "the callers' scopes - dynamic scoping; the property does not say which scoping applies, so the generator stays where both agree)",
@@ -42,7 +45,7 @@ ASSUMES = ["every value stays below 2^40 in magnitude (64-bit overflow is not mo
            "at most about 300 executed leaves per case; loops that hit the limit have bodies without notes"]
 
 LIMIT = 10000
-BIG = 2 ** 40
+BIG = 2 ** 31 - 1      # numerals in the source saturate at i32::MAX (get_int); the expansion writes values as numerals
 GLOBALS = ["Xa", "Xb", "Xc", "Yn", "Ym"]
 COUNTERS = ["Ka", "Kb", "Kc", "Kd", "Ke", "Kf"]
 FORVARS = ["Ia", "Ib", "Ic", "Id", "Ie", "If2"]
@@ -92,6 +95,8 @@ class Interp:
         raise Skip("read of an unset variable " + name)
 
     def assign(self, name, v, fr):
+        if v is not None and abs(v) >= BIG:
+            raise Skip("big value")
         g, l = fr
         (l if l is not None else g)[name] = v
 
@@ -320,9 +325,10 @@ def printed_text(vals):
 # generation
 # ---------------------------------------------------------------------------------------------------------------
 class Gen:
-    def __init__(self, rng, funcs_sig):
+    def __init__(self, rng, funcs_sig, gp=None):
         self.rng = rng
         self.sigs = funcs_sig          # name -> (nparams, kind) kind in "value" / "proc"
+        self.gp = gp or {}             # name -> parameter names, for functions whose parameters carry the names of globals
         self.nk = 0
         self.ni = 0
 
@@ -339,15 +345,38 @@ class Gen:
         vfs = [n for n, (k, kind) in self.sigs.items() if kind == "value"]
         if calls and vfs and r < 0.5:
             n = rng.choice(vfs)
-            return ("call", n, self.args(self.sigs[n][0], vars_, depth - 1, in_expr=True))
+            return ("call", n, self.args(n, vars_, depth - 1, in_expr=True))
         o = rng.choice(["+", "+", "-", "-", "*", "/", "%"])
         a = self.expr(vars_, depth - 1, calls)
         b = self.lit() if o in "*/%" else self.expr(vars_, depth - 1, calls)
         return ("bin", o, a, b)
 
-    def args(self, n, vars_, depth, in_expr):
+    def args(self, name, vars_, depth, in_expr):
         rng = self.rng
+        n = self.sigs[name][0]
         k = n if rng.random() < 0.6 else rng.randrange(0, n + 1)      # trailing arguments omitted
+        if name in self.gp:
+            # the callee's parameters have the names of the caller's variables: arguments name them swapped, shifted, twice,
+            # inside nested calls - every argument must be evaluated in the CALLER's frames, before any parameter is bound
+            k = n if rng.random() < 0.85 else k
+            ps = self.gp[name]
+            out = []
+            for i in range(k):
+                cand = [v for v in vars_ if v in GLOBALS[:3]]
+                other = [v for v in cand if v != ps[i]] or cand
+                r = rng.random()
+                if cand and r < 0.55:
+                    e = ("var", rng.choice(other))
+                elif cand and r < 0.75:
+                    e = ("bin", rng.choice(["+", "-"]), ("var", rng.choice(other)), ("var", rng.choice(cand)))
+                else:
+                    e = self.expr(vars_, depth, calls=False)
+                inner = [f for f in self.gp if self.sigs[f][1] == "value" and f != name]
+                if inner and depth >= 0 and rng.random() < 0.25:
+                    f = rng.choice(inner)
+                    e = ("call", f, [("var", rng.choice(cand)) if cand else self.lit() for _ in range(self.sigs[f][0])])
+                out.append(e)
+            return out
         out = [self.expr(vars_, depth, calls=rng.random() < 0.3) for _ in range(k)]
         if not in_expr and k >= 2 and rng.random() < 0.15:
             out[rng.randrange(0, k - 1)] = None                      # an empty argument takes the default (statement calls keep the position)
@@ -419,7 +448,7 @@ class Gen:
                 procs = [n for n, (k, kind) in self.sigs.items()]
                 if procs:
                     nme = rng.choice(procs)
-                    out.append(("callstmt", nme, self.args(self.sigs[nme][0], vars_, 1, in_expr=False)))
+                    out.append(("callstmt", nme, self.args(nme, vars_, 1, in_expr=False)))
                 else:
                     out.append(self.leaf())
         return out
@@ -451,14 +480,32 @@ def gen_program(rng, depth):
     """returns dict(funcs, main); function f may call only functions defined with a smaller index (no accidental recursion)"""
     nf = rng.choice([0, 0, 1, 1, 2, 2, 3])
     names = FUNCS[:nf]
-    sigs, funcs = {}, []
+    sigs, funcs, gps = {}, [], {}
     for idx, name in enumerate(names):
-        np_ = rng.randrange(0, 4)
         kind = rng.choice(["value", "value", "proc"])
+        if rng.random() < 0.4:
+            # parameters named like the caller's variables; the body reads only its own parameters and locals and calls only
+            # functions of the same kind (so that dynamic and lexical scoping agree)
+            pn = rng.choice([["Xa", "Xb"], ["Xb", "Xa"], ["Xa", "Xb", "Xc"], ["Xb", "Xc", "Xa"], ["Xa"], ["Xb"]])
+            params = [(x, rng.choice([None, None, 3, -2]) if j > 0 else None) for j, x in enumerate(pn)]
+            g = Gen(rng, {f: sigs[f] for f in gps}, dict(gps))
+            locs = ["L%s%d" % (name[1], j) for j in range(2)]
+            body = g.block(list(pn), min(depth, 2), rng.randrange(1, 5), False, kind, locs + list(pn))
+            body.insert(0, ("print", [("var", x) for x in pn]))
+            if kind == "value":
+                e = ("var", pn[0])
+                for j, x in enumerate(pn[1:]):
+                    e = ("bin", "+", ("bin", "*", e, ("lit", 10)), ("var", x))
+                body.append(("return", e) if rng.random() < 0.6 else ("return", g.expr(list(pn), 2, calls=False)))
+            funcs.append({"name": name, "params": params, "body": body, "kind": kind})
+            sigs[name] = (len(pn), kind)
+            gps[name] = pn
+            continue
+        np_ = rng.randrange(0, 4)
         params = []
         for j in range(np_):
             params.append(("P%s%d" % (name[1], j), rng.choice([None, None, 3, 7, 0, -2]) if j > 0 or rng.random() < 0.3 else None))
-        g = Gen(rng, dict(sigs))
+        g = Gen(rng, dict(sigs), dict(gps))
         local_names = [p for p, _ in params]
         locs = ["L%s%d" % (name[1], j) for j in range(2)]
         shadow = rng.random() < 0.25
@@ -475,7 +522,7 @@ def gen_program(rng, depth):
                 body.append(("return", g.expr(local_names, 2, calls=not shadow)))
         funcs.append({"name": name, "params": params, "body": body, "kind": kind})
         sigs[name] = (np_, kind)
-    g = Gen(rng, sigs)
+    g = Gen(rng, sigs, gps)
     main = [("decl", GLOBALS[0], ("lit", rng.choice([0, 1, 5]))), ("decl", GLOBALS[1], ("lit", rng.choice([2, 3, -4])))]
     main += g.block(GLOBALS[:2], depth, rng.randrange(2, 8), False, None, GLOBALS)
     main.append(("print", [("var", GLOBALS[0]), ("var", GLOBALS[1])]))
@@ -563,6 +610,10 @@ def families(rng):
         ("FUNCTION G(){ RETURN(7) } FUNCTION H(){ G() INT X RETURN(X) } PRINT(H())", [("print", [0])]),
         ("FUNCTION F(N){ FOR(INT I=0;I<5;I++){ FOR(INT J=0;J<5;J++){ c IF(J==N){ RETURN(I*10+J) } } } RETURN(-1) } PRINT(F(2)) d",
          [("leaf", "c")] * 3 + [("print", [2]), ("leaf", "d")]),
+        ("INT A=1; INT B=2; FUNCTION SHOW(INT A, INT B){ PRINT(A); PRINT(B) }; SHOW(B, A)", [("print", [2]), ("print", [1])]),
+        ("INT A=1; INT B=2; FUNCTION SUBT(INT A, INT B){ RETURN(A*10+B) }; PRINT(SUBT(B, A))", [("print", [21])]),
+        ("INT A=1 INT B=2 INT C=3 FUNCTION F(A,B,C){ RETURN(A*100+B*10+C) } FUNCTION G(B){ RETURN(B+5) } PRINT(F(C,A,B),F(B,B,A),F(G(B),A,G(A)))",
+         [("print", [312, 221, 716])]),
         ("INT X=1 FUNCTION F(){ X=5 PRINT(X) } F() PRINT(X)", [("print", [5]), ("print", [1])]),
         ("INT X=1 FUNCTION F(){ INT X=8 X++ PRINT(X) } F() PRINT(X)", [("print", [9]), ("print", [1])]),
         ("INT X=1 FUNCTION F(X){ X=X+1 RETURN(X) } PRINT(F(10),X)", [("print", [11, 1])]),
@@ -699,6 +750,50 @@ def run(ctx):
     rest = len(cases) % 2000
     if rest:
         check_cases(ctx, cases[-rest:], "generated")
+    run_mutations(ctx, 500 if quick else 6000)
+
+
+def run_mutations(ctx, n):
+    """correspondence off the grammar: generated programs WITHOUT loops (a damaged loop may run 10000 x 10000 passes) with one
+    character deleted / doubled / inserted or a span removed; model (when it does not answer Unsupported) and implementation
+    must agree on bytes and log"""
+    rng = ctx.rng
+    srcs = []
+    tries = 0
+    while len(srcs) < n and tries < 50 * n:
+        tries += 1
+        prog = gen_program(rng, rng.choice([1, 2]))
+        try:
+            meaning(prog)
+        except (Skip, RecursionError):
+            continue
+        s = render(prog, rng)
+        if re.search(r"WHILE|While|FOR|For", s):
+            continue
+        k, i = rng.random(), rng.randrange(len(s))
+        if k < 0.4:
+            s = s[:i] + s[i + 1:]
+        elif k < 0.6:
+            s = s[:i] + s[i] + s[i:]
+        elif k < 0.8:
+            s = s[:i] + rng.choice("(){};=+-,c \n") + s[i:]
+        else:
+            j = rng.randrange(len(s))
+            i, j = min(i, j), max(i, j)
+            s = s[:i] + s[j:]
+        srcs.append(s)
+    impl = ctx.impl(["compile_lex\t%s" % vlib.enc_text(s) for s in srcs], stall=40)
+    model = ctx.model(["compile_script\t%s" % vlib.enc_text(s) for s in srcs], stall=120)
+    for s, a, b in zip(srcs, impl, model):
+        ctx.count("mutated", None)
+        if a in ("PANIC", "HANG", "ABORT"):
+            # unbounded recursion (a damaged function that calls itself) exhausts the native stack: C07's subject, not a
+            # statement of C11; counted, not judged here
+            ctx.dist["mutated_" + a] = ctx.dist.get("mutated_" + a, 0) + 1
+        elif b.startswith("UNSUPPORTED"):
+            ctx.unsupported += 1
+        elif a != b:
+            ctx.disagree("compile_script(mutated)", {"source": s}, a[:1500], b[:1500])
 
 
 def still_fails(ctx, src):
